@@ -32,6 +32,8 @@ CERT_DEFECTS = {
     "issuer-ca-false": {"ca0": {"ca": False}},
     "issuer-ca-explicit-false": {"ca0": {"ca": "explicit-false", "path_len": None}},
     "issuer-no-keycertsign": {"ca0": {"ku": ["digitalSignature"]}},
+    "issuer-crlsign-only": {"ca0": {"ku": ["cRLSign"]}},
+    "issuer-ds-crlsign": {"ca0": {"ku": ["digitalSignature", "cRLSign"]}},
     "leaf-bad-signature": {"leaf": {"bad_sig": "flip"}},
     "ca-bad-signature": {"ca0": {"bad_sig": "flip"}},
     "leaf-signed-by-other-key": {"leaf": {"signed_by": "root"}},
